@@ -228,6 +228,8 @@ CONTEXTS = [
     'x := true && nope', 'x := {"a": 1, "b": [2, {"c": nope}]}', 'x := two(two(1, 2), two(3, nope))', 'x := lst[0:1][nope]', 'x := obj.f(nope)', 'return nope',
     # operator errors: the position of the operator
     'x := 1 + ""', 'x := 1 +   ""', 'x := (1 + 2) *  ""', 'x := lst[0] - "s"', 'x := 1 == ""', 'x := 1 < null', 'x := [] === 1', 'y := 1\ny += ""', 'y := 1\ny   -= ""', 'x := 1 + 2 * "" - 3', 'x := two(1, 2 / "")',
+    # chains of one operator: the failing application is not the last one (also continued on the next line)
+    'x := 1 + "" + 2', 'x := 9223372036854775807 + 1 + 0', 'x := "a" + 1 +\n    "b" +\n    "c"', 'x := 2 * "" * 3', 'x := 1 - "" - 1 - 1', 'x := true && 1 && false', 'x := 4 / 0 / 1', 'x := [1] + 1 + [2]',
     'x := 9223372036854775807 + 1', 'x := 5 % 0', 'x := 0 .. 1 + ""', 'lst[0] += ""', 'lst[1]   -= ""', 'obj.k -= ""', 'obj["k"]  *= ""', 'lst[0] /= 0', 'obj.k += 9223372036854775807',
     # call errors: the position of the call expression's first token
     'x := 5()', 'x := two(1)', 'x := 1 + two(1)', 'x := [two()]', 'x := obj.f()', 'x := obj["f"](1, 2)', 'x := lst[0]()', 'x := two(1, 2)(3)', 'x := 0 ..   two(1)', 'print(two(1, two()))',
